@@ -34,7 +34,8 @@ NB = {"quick": 16, "thorough": 64}
 
 
 def plan(tier):
-    return {"batches": NB[tier], "batch_timeout_s": 3000}
+    # thorough: one extra batch runs the repository's own test suite under the contracts (vf/suite_stage.py)
+    return {"batches": NB[tier] + (1 if tier == "thorough" else 0), "batch_timeout_s": 3000}
 
 
 def profile(tier, rng):
@@ -127,6 +128,12 @@ def sql_nodes_check(b, be_name, be, case, ops_by_node, frames):
 
 
 def run_batch(seed, batch, tier):
+    if batch == NB[tier]:
+        from vf import suite_stage
+
+        b = Batch(PID, seed, batch, tier)
+        suite_stage.run(b, PID)
+        return b.result()
     monitors.install()
     monitors.install_step_hooks()
     b = Batch(PID, seed, batch, tier)
@@ -212,6 +219,8 @@ def run_batch(seed, batch, tier):
 
 
 def inconclusive(counters, sigs, tier):
+    if tier == "thorough" and counters.get("suite_stage", {}).get("ran", 0) == 0:
+        return "the repository-suite-under-monitors stage did not run: %s" % counters.get("suite_stage")
     mc = counters.get("monitor_calls", {})
     need = ["c09:project-group:pandas", "c09:project-nogroup:pandas", "c09:window:pandas", "c09:project-group:polars",
             "c09:window:polars", "c09:null-key-group:pandas", "c09:values-compared:pandas", "c09:values-compared:sqlite",
@@ -228,6 +237,10 @@ def inconclusive(counters, sigs, tier):
 
 
 def replay(v):
+    if "suite_test" in (v.get("case") or {}):
+        from vf import suite_stage
+
+        return suite_stage.replay(v, PID)
     monitors.install()
     monitors.install_step_hooks()
     c = v.get("case") or {}
